@@ -305,7 +305,7 @@ func (f *file) verifyHelperOf(files []*file, name string) *verifyHelper {
 			}
 			onlyLogs := func(list []ast.Stmt) bool {
 				for _, st := range list {
-					if c.stmt(st, 1) != "SLog" {
+					if t := c.stmt(st, 1); t != "SLog" && t != "SPure" {
 						return false
 					}
 				}
@@ -356,7 +356,12 @@ func (f *file) verifyHelperOf(files []*file, name string) *verifyHelper {
 				if !ok || cond.Op != token.NEQ || !isIdent(cond.X, ev.Name) || !isIdent(cond.Y, "nil") || !onlyLogs(is.Body.List) {
 					return nil
 				}
-				h.logs = len(is.Body.List) > 0
+				h.logs = false
+				for _, st := range is.Body.List {
+					if c.stmt(st, 1) == "SLog" {
+						h.logs = true
+					}
+				}
 				rest = rest[1:]
 			}
 			if len(rest) == 1 {
@@ -389,7 +394,23 @@ func (c *wrapperCtx) helperCall(e ast.Expr) *verifyHelper {
 
 func (c *wrapperCtx) stmts(list []ast.Stmt, depth int) []string {
 	var out []string
-	for _, s := range list {
+	for i, s := range list {
+		// `if err := V; err == nil { A…; return }; B…`  is  `if err := V; err != nil { B…; return }; A…` (the success branch
+		// written first): translated in the second form, which is the one the statement language has
+		if is, ok := s.(*ast.IfStmt); ok && depth == 0 && is.Else == nil && is.Init != nil && len(is.Body.List) > 0 {
+			if cond, ok := is.Cond.(*ast.BinaryExpr); ok && cond.Op == token.EQL && isIdent(cond.Y, "nil") {
+				if last, ok := is.Body.List[len(is.Body.List)-1].(*ast.ReturnStmt); ok && len(last.Results) == 0 {
+					flipped := &ast.IfStmt{Init: is.Init, Cond: &ast.BinaryExpr{X: cond.X, Op: token.NEQ, Y: cond.Y},
+						Body: &ast.BlockStmt{List: append(append([]ast.Stmt{}, list[i+1:]...), &ast.ReturnStmt{})}}
+					t := c.stmt(flipped, depth)
+					if !strings.HasPrefix(t, "SOther") {
+						out = append(out, t)
+						out = append(out, c.stmts(is.Body.List[:len(is.Body.List)-1], depth)...)
+						return out
+					}
+				}
+			}
+		}
 		out = append(out, c.stmt(s, depth))
 	}
 	return out
